@@ -502,7 +502,68 @@ func (g *gen) group(prod bool) *types.Group {
 
 // ---------------------------------------------------------------- ops against the real code
 
-func errClass(e error) string { return "err" }
+// distribution of the stream: error kinds of the real parsers, outcome per op kind, input sizes
+var (
+	distErr     = map[string]int{}
+	distOutcome = map[string]int{}
+	distSize    = map[string]int{}
+)
+
+func errClass(e error) string {
+	m := e.Error()
+	k := "other"
+	switch {
+	case strings.Contains(m, "unexpected EOF") || strings.Contains(m, "truncated"):
+		k = "truncated"
+	case strings.Contains(m, "required"):
+		k = "required-missing"
+	case strings.Contains(m, "illegal tag 0") || strings.Contains(m, "invalid field number"):
+		k = "bad-field-number"
+	case strings.Contains(m, "wire type") || strings.Contains(m, "reserved"):
+		k = "bad-wire-type"
+	case strings.Contains(m, "end group") || strings.Contains(m, "end-group"):
+		k = "end-group"
+	case strings.Contains(m, "overflow"):
+		k = "varint-overflow"
+	case strings.Contains(m, "header"):
+		k = "header-times"
+	case strings.Contains(m, "nil element"):
+		k = "nil-element"
+	}
+	distErr[k]++
+	return "err"
+}
+
+func sizeBucket(n int) string {
+	switch {
+	case n == 0:
+		return "0"
+	case n <= 2:
+		return "1-2"
+	case n <= 16:
+		return "3-16"
+	case n <= 128:
+		return "17-128"
+	case n <= 1024:
+		return "129-1024"
+	case n <= 16384:
+		return "1025-16384"
+	}
+	return ">16384"
+}
+
+func distJSON(m map[string]int) string {
+	ks := make([]string, 0, len(m))
+	for k := range m {
+		ks = append(ks, k)
+	}
+	sort.Strings(ks)
+	ps := make([]string, 0, len(ks))
+	for _, k := range ks {
+		ps = append(ps, strconv.Quote(k)+":"+strconv.Itoa(m[k]))
+	}
+	return "{" + strings.Join(ps, ",") + "}"
+}
 
 func doHM(o *hx.Out, h *types.BlockHeader) []byte {
 	var out []byte
@@ -675,8 +736,21 @@ func doMM(o *hx.Out, m *types.Member) []byte {
 	return out
 }
 
+func tokPairs(hs []common.Hashes) string {
+	if len(hs) == 0 {
+		return "e"
+	}
+	ps := make([]string, 0, len(hs))
+	for _, p := range hs {
+		ps = append(ps, hx.Hex(p[0].Bytes())+"."+hx.Hex(p[1].Bytes()))
+	}
+	return strings.Join(ps, ",")
+}
+
 func parseOp(kind string, b []byte) string {
 	switch kind {
+	case "ru", "eu", "fu":
+		return netParseOp(kind, b)
 	case "mu":
 		return ansMU(b)
 	case "Gu":
@@ -696,7 +770,14 @@ func parseOp(kind string, b []byte) string {
 }
 
 func doParse(o *hx.Out, kind string, b []byte) string {
-	return o.Do(kind+" "+hx.Hex(b), func() string { return parseOp(kind, b) })
+	res := o.Do(kind+" "+hx.Hex(b), func() string { return parseOp(kind, b) })
+	c := res
+	if i := strings.IndexByte(res, ' '); i >= 0 {
+		c = res[:i]
+	}
+	distOutcome[strings.TrimSuffix(kind, "c")+":"+c]++
+	distSize[sizeBucket(len(b))]++
+	return res
 }
 
 // ---------------------------------------------------------------- wire-level mutation
@@ -781,6 +862,8 @@ var nested = map[string]map[uint64]string{
 	"h": {12: "x", 19: "y"},
 	"g": {1: "q"},
 	"G": {1: "g"},
+	"e": {},
+	"r": {1: "x"},
 }
 
 var timeFields = map[string]map[uint64]bool{"h": {4: true, 7: true}, "q": {5: true}}
@@ -1362,6 +1445,82 @@ func richest(msgs [][]byte) []byte {
 	return best
 }
 
+// ---------------------------------------------------------------- small hand-assembled messages
+
+// fields of each message kind: number -> wire type the schema expects
+var kindFields = map[string][][2]int{
+	"t": {{1, 2}, {2, 0}, {3, 2}, {4, 2}, {5, 0}, {6, 2}, {7, 2}, {8, 0}, {9, 2}, {10, 2}, {11, 0}, {12, 2}, {13, 2}, {14, 2}, {15, 2}},
+	"h": {{1, 2}, {2, 0}, {3, 2}, {4, 2}, {5, 2}, {6, 0}, {7, 2}, {8, 2}, {9, 2}, {10, 2}, {11, 0}, {12, 2}, {13, 2}, {16, 2}, {17, 2}, {19, 2}, {20, 2}},
+	"g": {{1, 2}, {2, 2}, {3, 2}, {4, 2}, {5, 2}, {6, 0}},
+	"q": {{1, 2}, {2, 2}, {3, 2}, {4, 2}, {5, 2}, {6, 2}, {7, 0}, {8, 2}},
+	"m": {{1, 2}, {2, 2}},
+	"e": {{1, 0}, {2, 2}},
+	"r": {{1, 2}, {2, 2}, {3, 0}, {4, 2}},
+	"b": {{1, 2}, {2, 2}},
+	"s": {{1, 2}},
+	"G": {{1, 2}},
+	"x": {{1, 2}, {2, 2}},
+	"y": {{1, 2}},
+}
+
+var validTime = []byte{1, 0, 0, 0, 0x0e, 0xd9, 0x58, 0xa9, 0x29, 0, 0, 0, 0, 0xff, 0xff}
+
+// smallMsg assembles a short message of the kind from 1..4 of its fields (short payloads, nested kinds recursively),
+// occasionally with a wrong wire type, an over-long varint, a stray or mismatching end-group, or a reserved wire type.
+func (g *gen) smallMsg(kind string, depth int) []byte {
+	fl := kindFields[kind]
+	var fs []field
+	n := 1 + g.r.Intn(4)
+	if (kind == "h" || kind == "q") && g.r.Chance(2, 3) { // a header that passes the time checks
+		tf := []uint64{4, 7}
+		if kind == "q" {
+			tf = []uint64{5, 6, 7}
+		}
+		for _, t := range tf {
+			f := field{tag: t, wire: 2, payload: validTime}
+			if kind == "q" && t == 6 {
+				f.payload = g.r.Bytes(32)
+			}
+			if kind == "q" && t == 7 {
+				f = field{tag: 7, wire: 0, payload: putVarint(nil, g.u64())}
+			}
+			fs = append(fs, f)
+		}
+	}
+	for i := 0; i < n && len(fl) > 0; i++ {
+		d := fl[g.r.Intn(len(fl))]
+		f := field{tag: uint64(d[0]), wire: d[1]}
+		if nk, ok := nested[kind][f.tag]; ok && depth < 2 {
+			f.payload = g.smallMsg(nk, depth+1)
+		} else if f.wire == 0 {
+			f.payload = putVarint(nil, g.u64())
+		} else {
+			f.payload = g.r.Bytes(g.r.Pick(0, 1, 2, 3, 4, 8, 20, 32, 33, 65))
+		}
+		switch g.r.Intn(14) {
+		case 0: // wrong wire type
+			if f.wire == 0 {
+				f.wire, f.payload = 2, g.r.Bytes(g.r.Intn(3))
+			} else {
+				f.wire, f.payload = 0, putVarint(nil, g.u64())
+			}
+		case 1: // varint of 11 bytes / tenth byte too large
+			f.wire = 0
+			f.payload = [][]byte{{0xff, 0xff, 0xff, 0xff, 0xff, 0xff, 0xff, 0xff, 0xff, 0x02}, {0x80, 0x80, 0x80, 0x80, 0x80, 0x80, 0x80, 0x80, 0x80, 0x80, 0x01}}[g.r.Intn(2)]
+		case 2: // group: matching, mismatching, stray end
+			f.wire = []int{3, 3, 4}[g.r.Intn(3)]
+			f.payload = nil
+			if f.wire == 3 {
+				f.payload = putVarint([]byte{0x08, 0x01}, (f.tag+uint64(g.r.Intn(2)))<<3|4)
+			}
+		case 3:
+			f.wire, f.payload = g.r.Pick(1, 5, 6, 7), g.r.Bytes(g.r.Pick(0, 4, 8))
+		}
+		fs = append(fs, f)
+	}
+	return join(fs)
+}
+
 // ---------------------------------------------------------------- corpus
 
 func runCorpus(o *hx.Out) int {
@@ -1390,6 +1549,9 @@ func runCorpus(o *hx.Out) int {
 			}
 			b, err := hx.UnHex(w[1])
 			if err != nil {
+				continue
+			}
+			if !netEnabled && (w[0] == "eu" || w[0] == "fu" || w[0] == "ru") {
 				continue
 			}
 			doParse(o, w[0], b)
@@ -1435,7 +1597,7 @@ func corr(a map[string]string) {
 		for x := 0; x < 256; x++ {
 			doParse(out, k, []byte{byte(x)})
 		}
-		for i := 0; i < 150*scale; i++ {
+		for i := 0; i < 40*scale; i++ {
 			doParse(out, k, []byte{byte(g.r.Pick(0x08, 0x0a, 0x10, 0x12, 0x28, 0x30, 0x38, 0x3a, 0x62, 0x9a, int(g.r.U64()&0xff))), byte(g.r.U64())})
 		}
 	}
@@ -1451,6 +1613,7 @@ func corr(a map[string]string) {
 		})
 	}
 
+	netCorr(out, scale)
 	// present-with-length-L family for every bytes/string field of one rich message of each kind (deterministic, runs early)
 	{
 		fg := &gen{r: hx.NewRng(hx.SeedFromEnv() ^ 0xf1e1d)}
@@ -1589,6 +1752,18 @@ func corr(a map[string]string) {
 			}
 		}
 	}
+	// small hand-assembled messages (3..128 bytes): every field kind, every error kind
+	{
+		sg2 := &gen{r: hx.NewRng(hx.SeedFromEnv() ^ 0x5a11)}
+		for i := 0; i < 700*scale; i++ {
+			k := []string{"t", "h", "g", "m", "e", "r", "b", "s", "G"}[i%9]
+			if !netEnabled && (k == "e" || k == "r") {
+				continue
+			}
+			op := map[string]string{"t": "tu", "h": "hu", "g": "gu", "m": "mu", "e": "eu", "r": "ru", "b": "bu", "s": "su", "G": "Gu"}[k]
+			doParse(out, op, sg2.smallMsg(k, 0))
+		}
+	}
 	// retention: results are values (no shared buffer behind returned bytes, no aliasing of parser input)
 	retentionCorr(out, g, 6*scale)
 	// malformed stream
@@ -1609,7 +1784,8 @@ func corr(a map[string]string) {
 		st := sentinels[i]
 		out.Do("ret "+hx.Hex([]byte(st.ans)), func() string { return hx.Hex([]byte(parseOp(st.kind, st.b))) })
 	}
-	fmt.Printf("STATS {\"corpus\":%d,\"dist\":%s}\n", nCorpus, out.StatsJSON())
+	fmt.Printf("STATS {\"corpus\":%d,\"dist\":%s,\"parse_outcome_by_kind\":%s,\"parser_error_kinds\":%s,\"parse_input_sizes\":%s}\n", nCorpus, out.StatsJSON(),
+		distJSON(distOutcome), distJSON(distErr), distJSON(distSize))
 }
 
 // ---------------------------------------------------------------- searcher (no model)
@@ -1728,7 +1904,7 @@ func (s *searcher) checkParse(kind string, b []byte) {
 	s.evals++
 	res := hx.Guard(func() string { return parseOp(kind, b) })
 	s.dist[kind+":"+strings.SplitN(res, " ", 2)[0]] = true
-	name := map[string]string{"mu": "UnMarshalMember", "Gu": "PbToGroups", "hu": "UnMarshalBlockHeader", "tu": "UnMarshalTransaction", "su": "UnMarshalTransactions",
+	name := map[string]string{"ru": "core.unMarshalTransactionRequestMessage", "eu": "network.unMarshalMessage", "fu": "baseConn.unloadMsg", "mu": "UnMarshalMember", "Gu": "PbToGroups", "hu": "UnMarshalBlockHeader", "tu": "UnMarshalTransaction", "su": "UnMarshalTransactions",
 		"bu": "UnMarshalBlock", "gu": "UnMarshalGroup"}[kind]
 	rp := map[string]string{"call": name, "bytes": hx.Hex(b), "observed": res}
 	switch {
@@ -1901,6 +2077,7 @@ func (s *searcher) run(g *gen, n int) {
 			s.add("group-roundtrip-"+strings.SplitN(res, " ", 2)[0], "producible group does not survive Marshal/UnMarshal: "+res,
 				map[string]string{"call": "MarshalGroup;UnMarshalGroup", "group": tokGroup(gr), "observed": res})
 		}
+		s.netRoundtrips(g)
 		// --- member and group-slice round trips
 		mem := &types.Member{Id: g.r.Bytes(1 + g.r.Intn(33)), PubKey: g.r.Bytes(g.r.Intn(65))}
 		s.evals++
@@ -2015,6 +2192,12 @@ func search(a map[string]string) {
 		}
 	}
 	// the concrete inputs of the DESIGN leads
+	if netEnabled {
+		for _, l := range [][2]string{{"eu", "-"}, {"eu", "1200"}, {"eu", "120401020304"}, {"fu", "-"}, {"fu", "0102"}} {
+			b, _ := hx.UnHex(l[1])
+			s.checkParse(l[0], b)
+		}
+	}
 	for _, l := range [][2]string{{"tu", "2801"}, {"hu", "-"}, {"gu", "0a0432003800"}, {"su", "0a022801"}} {
 		b, _ := hx.UnHex(l[1])
 		s.checkParse(l[0], b)
@@ -2024,7 +2207,7 @@ func search(a map[string]string) {
 		b, _ := hx.UnHex(w)
 		s.parsedHeaderRoundtrip(b)
 	}
-	for _, k := range []string{"tu", "hu", "su", "bu", "gu", "mu", "Gu"} {
+	for _, k := range append(netKinds(), "tu", "hu", "su", "bu", "gu", "mu", "Gu") {
 		for x := 0; x < 256; x++ {
 			s.checkParse(k, []byte{byte(x)})
 		}
@@ -2069,6 +2252,7 @@ func search(a map[string]string) {
 
 func main() {
 	utility.VerifDisableNTP()
+	netInit()
 	types.InitSerialzation() // package logger must be non-nil before a panic counts (node start-up does this)
 	a := hx.Args()
 	if a["mode"] == "search" {
